@@ -1,1 +1,1084 @@
-//! (stub)
+//! Expression program generators (C07): the alphabets of the exhaustive short-program
+//! enumeration, a snippet-based random program generator (typed operations, loops,
+//! branches of every target kind, calls, entry values, composite locations with every
+//! piece-termination order), operand tails for the decode catalogue, and scripted answer
+//! streams for every `EvaluationResult::Requires*`.
+//!
+//! Everything is emitted with the byte assembler; nothing here uses gimli.
+
+use crate::asm::{sleb_bytes, uleb_bytes, uleb_padded, Asm, Enc};
+use crate::model::expr::{Ans, Req, Ty, ALL_TYPES};
+use crate::rt::{mix64, Rng, EXTREMES};
+
+// ------------------------------------------------------------------ single operations
+
+pub fn enc_op(enc: Enc, f: impl FnOnce(&mut Asm)) -> Vec<u8> {
+    let mut a = Asm::new(enc.le);
+    a.map = false;
+    f(&mut a);
+    a.buf
+}
+
+/// The alphabet (48 items) of the exhaustive enumeration of programs of length <= 3.
+pub fn alphabet46(enc: Enc) -> Vec<(&'static str, Vec<u8>)> {
+    let mut v: Vec<(&'static str, Vec<u8>)> = vec![];
+    // all no-operand arithmetic / logic / shift / compare / stack operations
+    for (n, o) in [
+        ("dup", 0x12u8),
+        ("drop", 0x13),
+        ("over", 0x14),
+        ("swap", 0x16),
+        ("rot", 0x17),
+        ("abs", 0x19),
+        ("and", 0x1a),
+        ("div", 0x1b),
+        ("minus", 0x1c),
+        ("mod", 0x1d),
+        ("mul", 0x1e),
+        ("neg", 0x1f),
+        ("not", 0x20),
+        ("or", 0x21),
+        ("plus", 0x22),
+        ("shl", 0x24),
+        ("shr", 0x25),
+        ("shra", 0x26),
+        ("xor", 0x27),
+        ("eq", 0x29),
+        ("ge", 0x2a),
+        ("gt", 0x2b),
+        ("le", 0x2c),
+        ("lt", 0x2d),
+        ("ne", 0x2e),
+        ("lit0", 0x30),
+        ("lit1", 0x31),
+        ("lit31", 0x4f),
+        ("nop", 0x96),
+        ("stack_value", 0x9f),
+        ("reg0", 0x50),
+    ] {
+        v.push((n, vec![o]));
+    }
+    v.push(("const1u 0x80", vec![0x08, 0x80]));
+    v.push(("const8u min-signed", enc_op(enc, |a| {
+        a.u8(0x0e).u64(1u64 << (8 * enc.addr as u32 - 1));
+    })));
+    v.push(("constu mask", enc_op(enc, |a| {
+        a.u8(0x10).uleb(enc.addr_mask());
+    })));
+    v.push(("consts -1", vec![0x11, 0x7f]));
+    v.push(("pick 2", vec![0x15, 2]));
+    v.push(("skip +1", enc_op(enc, |a| {
+        a.u8(0x2f).u16(1);
+    })));
+    v.push(("bra -3", enc_op(enc, |a| {
+        a.u8(0x28).u16(0xfffd);
+    })));
+    v.push(("piece 4", vec![0x93, 4]));
+    // beyond the 41 named in DESIGN.md: a few that exercise widths and counts
+    v.push(("lit8", vec![0x38]));
+    v.push(("const1u 7", vec![0x08, 7]));
+    v.push(("plus_uconst mask", enc_op(enc, |a| {
+        a.u8(0x23).uleb(enc.addr_mask());
+    })));
+    v.push(("const4u 0xfffffffe", enc_op(enc, |a| {
+        a.u8(0x0c).u32(0xffff_fffe);
+    })));
+    v.push(("const2s -2", enc_op(enc, |a| {
+        a.u8(0x0b).u16(0xfffe);
+    })));
+    v.push(("const1u 0x20", vec![0x08, 0x20]));
+    v.push(("const1u 0x40", vec![0x08, 0x40]));
+    v.push(("lit16", vec![0x40]));
+    v.push(("lit15", vec![0x3f]));
+    v
+}
+
+/// The 20-item alphabet of the exhaustive enumeration of programs of length 4.
+pub fn alphabet20(enc: Enc) -> Vec<(&'static str, Vec<u8>)> {
+    let all = alphabet46(enc);
+    let pickn = |n: &str| all.iter().find(|x| x.0 == n).cloned().unwrap();
+    [
+        "dup", "swap", "rot", "div", "minus", "mod", "mul", "neg", "shl", "shr", "shra", "lt", "lit1", "lit31", "const8u min-signed", "consts -1", "bra -3", "stack_value", "piece 4",
+        "reg0",
+    ]
+    .iter()
+    .map(|n| pickn(n))
+    .collect()
+}
+
+// ------------------------------------------------------------------ answer scripts
+
+/// The base-type DIE at unit offset `o` has type `ALL_TYPES[o % 11]` (0 = generic).
+pub fn type_of_base(o: u64) -> Ty {
+    ALL_TYPES[(o % 11) as usize]
+}
+
+/// A unit offset whose base type is `t` (small or large).
+pub fn base_of_type(t: Ty, r: &mut Rng) -> u64 {
+    let i = ALL_TYPES.iter().position(|x| *x == t).unwrap() as u64;
+    match r.below(8) {
+        0 => i + 11 * r.below(1000),
+        1 => i + 11 * ((1u64 << 40) / 11),
+        _ => i + if i == 0 { 0 } else { 11 * r.below(3) },
+    }
+}
+
+pub const FLOATS32: &[f32] = &[0.0, -0.0, 1.0, -1.0, 1.5, -2.5, 3.0, 7.0, 100.25, 1e10, -1e10, 3e38, f32::MAX, f32::MIN_POSITIVE, f32::INFINITY, f32::NEG_INFINITY, f32::NAN, 255.0, 256.0, 65535.9, 2147483648.0, -129.0];
+pub const FLOATS64: &[f64] = &[0.0, -0.0, 1.0, -1.0, 1.5, -2.5, 3.0, 7.0, 100.25, 1e10, -1e10, 1e300, f64::MAX, f64::MIN_POSITIVE, f64::INFINITY, f64::NEG_INFINITY, f64::NAN, 255.0, 256.0, 4294967295.5, 9223372036854775808.0, 18446744073709551616.0, -32769.0];
+
+/// Raw bits of an interesting value of type `t`.
+pub fn value_bits(t: Ty, r: &mut Rng) -> u64 {
+    match t {
+        Ty::F32 => {
+            if r.chance(3, 4) {
+                r.pick(FLOATS32).to_bits() as u64
+            } else {
+                r.next() as u32 as u64
+            }
+        }
+        Ty::F64 => {
+            if r.chance(3, 4) {
+                r.pick(FLOATS64).to_bits()
+            } else {
+                r.next()
+            }
+        }
+        _ => r.boundary(),
+    }
+}
+
+/// Scripted answers: the answer to the i-th request is a pure function of
+/// `(seed, i, request)`, so the model and the evaluator under test receive the same
+/// answers as long as they ask the same questions.
+#[derive(Clone, Debug)]
+pub struct Script {
+    pub seed: u64,
+    /// `pool[0]` is the empty expression
+    pub pool: Vec<Vec<u8>>,
+    /// probability (in 1/16) that a typed request is answered with a value of another type
+    pub hostile16: u64,
+}
+
+impl Script {
+    pub fn answer(&self, idx: usize, req: &Req) -> Ans {
+        let mut r = Rng::new(mix64(self.seed ^ (idx as u64).wrapping_mul(0x9e37_79b9_7f4a_7c15)));
+        let typed = |r: &mut Rng, base: u64, hostile16: u64| -> Ans {
+            let t = if r.below(16) < hostile16 { *r.pick(&ALL_TYPES) } else { type_of_base(base) };
+            Ans::Value(t, value_bits(t, r))
+        };
+        match req {
+            Req::Memory { base_type, .. } => typed(&mut r, *base_type, self.hostile16),
+            Req::Register { base_type, .. } => typed(&mut r, *base_type, self.hostile16),
+            Req::EntryValue(_) | Req::WasmLocal(_) | Req::WasmGlobal(_) | Req::WasmStack(_) => {
+                let t = if r.chance(1, 2) { Ty::Generic } else { *r.pick(&ALL_TYPES) };
+                Ans::Value(t, value_bits(t, &mut r))
+            }
+            Req::FrameBase | Req::Tls(_) | Req::Cfa | Req::ParameterRef(_) | Req::RelocatedAddress(_) | Req::IndexedAddress { .. } => Ans::Word(r.boundary()),
+            Req::AtLocation(_) => Ans::Expr(r.usize(self.pool.len().max(1))),
+            Req::BaseType(o) => Ans::Type(if r.below(16) < self.hostile16 { *r.pick(&ALL_TYPES) } else { type_of_base(*o) }),
+        }
+    }
+}
+
+// ------------------------------------------------------------------ random programs
+
+#[derive(Clone, Debug)]
+enum Target {
+    /// start of item `i` (i == number of items: the end of the expression)
+    Item(usize),
+    End,
+    /// `k` bytes past the end
+    PastEnd(u16),
+    /// into the middle of item `i` (if it has operands), else its start
+    Mid(usize),
+    /// before the start of the expression
+    Negative,
+    /// raw displacement
+    Raw(i16),
+}
+
+#[derive(Clone, Debug)]
+struct Item {
+    bytes: Vec<u8>,
+    /// for bra / skip: where the 2-byte displacement (at bytes[1..3]) should point
+    target: Option<Target>,
+}
+
+pub struct Builder<'r> {
+    pub enc: Enc,
+    items: Vec<Item>,
+    r: &'r mut Rng,
+    /// lower bound of the number of values on the stack, all generic unless `typed_top`
+    depth: usize,
+    typed_top: bool,
+    /// nesting budget for entry_value sub-expressions
+    level: u32,
+}
+
+const BIN_OPS: &[u8] = &[0x1a, 0x1b, 0x1c, 0x1d, 0x1e, 0x21, 0x22, 0x24, 0x25, 0x26, 0x27, 0x29, 0x2a, 0x2b, 0x2c, 0x2d, 0x2e];
+const UN_OPS: &[u8] = &[0x19, 0x1f, 0x20];
+
+impl<'r> Builder<'r> {
+    pub fn new(enc: Enc, r: &'r mut Rng, level: u32) -> Builder<'r> {
+        Builder { enc, items: vec![], r, depth: 0, typed_top: false, level }
+    }
+    fn raw(&mut self, bytes: Vec<u8>) {
+        self.items.push(Item { bytes, target: None });
+    }
+    fn op(&mut self, f: impl FnOnce(&mut Asm)) {
+        let b = enc_op(self.enc, f);
+        self.raw(b);
+    }
+    fn uleb_any(&mut self, v: u64) -> Vec<u8> {
+        // canonical, or padded up to 10 bytes
+        if self.r.chance(1, 8) {
+            let n = uleb_bytes(v).len();
+            let m = n + self.r.usize(10 - n + 1);
+            uleb_padded(v, m.min(10))
+        } else {
+            uleb_bytes(v)
+        }
+    }
+    /// A value interesting at the address width.
+    fn word(&mut self) -> u64 {
+        let mask = self.enc.addr_mask();
+        let bits = 8 * self.enc.addr as u32;
+        match self.r.below(12) {
+            0 => 0,
+            1 => 1,
+            2 => mask,
+            3 => mask >> 1,
+            4 => (mask >> 1) + 1,
+            5 => mask - 1,
+            6 => self.r.below(bits as u64 + 3),
+            7 => self.r.below(300),
+            8 => self.r.boundary() & mask,
+            // deliberately wider than the address size
+            9 => self.r.boundary(),
+            10 => (1u64 << self.r.below(bits as u64)) & mask,
+            _ => self.r.next() & mask,
+        }
+    }
+    /// Push the generic constant `v` with a randomly chosen encoding.
+    pub fn push_const(&mut self, v: u64) {
+        let enc = self.enc;
+        let mut choices: Vec<u8> = vec![0x10, 0x0e];
+        if v < 32 {
+            choices.extend_from_slice(&[0x30, 0x30, 0x30]);
+        }
+        if v < 0x100 {
+            choices.push(0x08);
+        }
+        if v < 0x1_0000 {
+            choices.push(0x0a);
+        }
+        if v < 0x1_0000_0000 {
+            choices.push(0x0c);
+        }
+        let s = v as i64;
+        choices.push(0x11);
+        choices.push(0x0f);
+        if s >= -128 && s < 128 {
+            choices.push(0x09);
+        }
+        if s >= -32768 && s < 32768 {
+            choices.push(0x0b);
+        }
+        if s >= i32::MIN as i64 && s <= i32::MAX as i64 {
+            choices.push(0x0d);
+        }
+        // a negative constant of the address width: sign-extended forms are equivalent
+        let c = *self.r.pick(&choices);
+        let ul = self.uleb_any(v);
+        let b = enc_op(enc, |a| {
+            match c {
+                0x30 => {
+                    a.u8(0x30 + v as u8);
+                }
+                0x08 => {
+                    a.u8(c).u8(v as u8);
+                }
+                0x0a => {
+                    a.u8(c).u16(v as u16);
+                }
+                0x0c => {
+                    a.u8(c).u32(v as u32);
+                }
+                0x0e => {
+                    a.u8(c).u64(v);
+                }
+                0x10 => {
+                    a.u8(c).bytes(&ul);
+                }
+                0x11 => {
+                    a.u8(c).sleb(s);
+                }
+                0x09 => {
+                    a.u8(c).u8(s as u8);
+                }
+                0x0b => {
+                    a.u8(c).u16(s as u16);
+                }
+                0x0d => {
+                    a.u8(c).u32(s as u32);
+                }
+                _ => {
+                    a.u8(0x0f).u64(v);
+                }
+            };
+        });
+        self.raw(b);
+        self.depth += 1;
+        self.typed_top = false;
+    }
+    fn push_word(&mut self) {
+        let v = self.word();
+        self.push_const(v);
+    }
+    fn typed_bytes(&mut self, t: Ty) -> Vec<u8> {
+        let bits = value_bits(t, self.r);
+        let n = (t.bits(self.enc.addr) / 8) as usize;
+        let mut a = Asm::new(self.enc.le);
+        a.uint(n, bits);
+        a.buf
+    }
+    fn a_type(&mut self) -> Ty {
+        *self.r.pick(&ALL_TYPES[1..])
+    }
+    /// const_type T <value>
+    fn push_typed(&mut self, t: Ty) {
+        let gnu = self.r.chance(1, 6);
+        let base = base_of_type(t, self.r);
+        let mut data = self.typed_bytes(t);
+        match self.r.below(24) {
+            0 => {
+                data.pop();
+            }
+            1 => data.push(0xaa),
+            _ => {}
+        }
+        let ul = self.uleb_any(base);
+        self.op(|a| {
+            a.u8(if gnu { 0xf4 } else { 0xa4 }).bytes(&ul).u8(data.len() as u8).bytes(&data);
+        });
+        self.depth += 1;
+        self.typed_top = true;
+    }
+    fn convert_to(&mut self, t: Ty) {
+        let gnu = self.r.chance(1, 6);
+        let base = base_of_type(t, self.r);
+        self.op(|a| {
+            a.u8(if gnu { 0xf7 } else { 0xa8 }).uleb(base);
+        });
+        self.typed_top = t != Ty::Generic;
+    }
+    fn reinterpret_to(&mut self, t: Ty) {
+        let gnu = self.r.chance(1, 6);
+        let base = base_of_type(t, self.r);
+        self.op(|a| {
+            a.u8(if gnu { 0xf9 } else { 0xa9 }).uleb(base);
+        });
+        self.typed_top = t != Ty::Generic;
+    }
+    fn reg_num(&mut self) -> u64 {
+        match self.r.below(8) {
+            0 => 65535,
+            1 => 65536,
+            2 => self.r.boundary(),
+            3 => 32 + self.r.below(200),
+            _ => self.r.below(32),
+        }
+    }
+    fn sub_expression(&mut self, max_items: usize) -> Vec<u8> {
+        if self.level == 0 {
+            return vec![0x30 + self.r.below(32) as u8];
+        }
+        let mut sub_rng = Rng::new(self.r.next());
+        let mut b = Builder::new(self.enc, &mut sub_rng, self.level - 1);
+        let n = 1 + b.r.usize(max_items);
+        for _ in 0..n {
+            b.snippet();
+        }
+        b.finish().0
+    }
+
+    /// One request operation that pushes a value.
+    fn request_snippet(&mut self) {
+        let k = self.r.below(22);
+        match k {
+            0 => {
+                let off = self.r.boundary() as i64;
+                let small = self.r.irange(-300, 300);
+                let o = if self.r.bool() { off } else { small };
+                self.op(|a| {
+                    a.u8(0x91).sleb(o);
+                });
+            }
+            1 | 2 => {
+                let n = self.r.below(32) as u8;
+                let off = if self.r.bool() { self.r.boundary() as i64 } else { self.r.irange(-300, 300) };
+                self.op(|a| {
+                    a.u8(0x70 + n).sleb(off);
+                });
+            }
+            3 => {
+                let reg = self.reg_num();
+                let off = self.r.irange(-70000, 70000);
+                self.op(|a| {
+                    a.u8(0x92).uleb(reg).sleb(off);
+                });
+            }
+            4 => self.op(|a| {
+                a.u8(0x9c);
+            }),
+            5 => {
+                let v = self.r.boundary() & self.enc.addr_mask();
+                let n = self.enc.addr as usize;
+                self.op(|a| {
+                    a.u8(0x03).uint(n, v);
+                });
+            }
+            6 => {
+                let v = self.r.boundary();
+                let o = *self.r.pick(&[0xa1u8, 0xfb, 0xa2, 0xfc]);
+                self.op(|a| {
+                    a.u8(o).uleb(v);
+                });
+            }
+            7 => {
+                let v = self.r.boundary() as u32;
+                self.op(|a| {
+                    a.u8(0xfa).u32(v);
+                });
+            }
+            8 => self.op(|a| {
+                a.u8(0x97);
+            }),
+            9 | 10 => {
+                // deref family on a pushed address
+                self.push_word();
+                self.depth -= 1;
+                let size = match self.r.below(6) {
+                    0 => self.enc.addr + 1,
+                    1 => 0,
+                    2 => 0xff,
+                    _ => 1 + self.r.below(self.enc.addr as u64) as u8,
+                };
+                match self.r.below(3) {
+                    0 => self.op(|a| {
+                        a.u8(0x06);
+                    }),
+                    1 => self.op(|a| {
+                        a.u8(0x94).u8(size);
+                    }),
+                    _ => {
+                        let t = *self.r.pick(&ALL_TYPES);
+                        let base = base_of_type(t, self.r);
+                        let gnu = self.r.chance(1, 4);
+                        self.op(|a| {
+                            a.u8(if gnu { 0xf6 } else { 0xa6 }).u8(size).uleb(base);
+                        });
+                        self.typed_top = t != Ty::Generic;
+                    }
+                }
+            }
+            11 => {
+                // xderef family: space then address
+                self.push_word();
+                self.push_word();
+                self.depth -= 2;
+                let size = if self.r.chance(1, 5) { self.enc.addr + 1 } else { 1 + self.r.below(self.enc.addr as u64) as u8 };
+                match self.r.below(3) {
+                    0 => self.op(|a| {
+                        a.u8(0x18);
+                    }),
+                    1 => self.op(|a| {
+                        a.u8(0x95).u8(size);
+                    }),
+                    _ => {
+                        let t = *self.r.pick(&ALL_TYPES);
+                        let base = base_of_type(t, self.r);
+                        self.op(|a| {
+                            a.u8(0xa7).u8(size).uleb(base);
+                        });
+                        self.typed_top = t != Ty::Generic;
+                    }
+                }
+            }
+            12 => {
+                self.push_word();
+                self.depth -= 1;
+                let o = if self.r.bool() { 0x9b } else { 0xe0 };
+                self.op(|a| {
+                    a.u8(o);
+                });
+            }
+            13 | 14 => {
+                // regval_type
+                let t = *self.r.pick(&ALL_TYPES);
+                let base = base_of_type(t, self.r);
+                let reg = self.reg_num();
+                let gnu = self.r.chance(1, 4);
+                self.op(|a| {
+                    a.u8(if gnu { 0xf5 } else { 0xa5 }).uleb(reg).uleb(base);
+                });
+                self.typed_top = t != Ty::Generic;
+            }
+            15 | 16 => {
+                let sub = self.sub_expression(3);
+                let gnu = self.r.chance(1, 4);
+                self.op(|a| {
+                    a.u8(if gnu { 0xf3 } else { 0xa3 }).uleb(sub.len() as u64).bytes(&sub);
+                });
+                // the answer may be of any type
+                self.typed_top = true;
+            }
+            17 => {
+                let kind = self.r.below(4) as u8;
+                let idx = self.r.boundary();
+                self.op(|a| {
+                    a.u8(0xed).u8(kind);
+                    if kind == 3 {
+                        a.u32(idx as u32);
+                    } else {
+                        a.uleb(idx & 0xffff_ffff);
+                    }
+                });
+                self.typed_top = true;
+            }
+            _ => {
+                // calls: the callee may push anything (or nothing)
+                let v = self.r.boundary();
+                let fmt64 = self.enc.fmt64;
+                match self.r.below(3) {
+                    0 => self.op(|a| {
+                        a.u8(0x98).u16(v as u16);
+                    }),
+                    1 => self.op(|a| {
+                        a.u8(0x99).u32(v as u32);
+                    }),
+                    _ => self.op(|a| {
+                        a.u8(0x9a).word(fmt64, v);
+                    }),
+                }
+                // unknown effect on the stack
+                return;
+            }
+        }
+        self.depth += 1;
+        if !matches!(k, 9 | 10 | 11 | 13 | 14 | 15 | 16 | 17) {
+            self.typed_top = false;
+        }
+    }
+
+    fn branch_item(&mut self, conditional: bool, t: Target) {
+        let opc = if conditional { 0x28 } else { 0x2f };
+        self.items.push(Item { bytes: vec![opc, 0, 0], target: Some(t) });
+    }
+
+    /// Emit one snippet (a short, mostly well-formed group of operations).
+    pub fn snippet(&mut self) {
+        let k = self.r.below(100);
+        match k {
+            0..=9 => self.push_word(),
+            10..=24 => {
+                // generic binary operation on two fresh operands
+                let op = *self.r.pick(BIN_OPS);
+                self.push_word();
+                let is_shift = matches!(op, 0x24 | 0x25 | 0x26);
+                if is_shift && self.r.chance(3, 4) {
+                    let bits = 8 * self.enc.addr as u64;
+                    let c = match self.r.below(6) {
+                        0 => bits,
+                        1 => bits - 1,
+                        2 => bits + 1,
+                        3 => 64,
+                        _ => self.r.below(bits + 2),
+                    };
+                    self.push_const(c);
+                } else if matches!(op, 0x1b | 0x1d) && self.r.chance(7, 8) {
+                    let mut v = self.word();
+                    if v & self.enc.addr_mask() == 0 {
+                        v = 3;
+                    }
+                    self.push_const(v);
+                } else {
+                    self.push_word();
+                }
+                self.raw(vec![op]);
+                self.depth -= 1;
+            }
+            25..=29 => {
+                // binary operation on whatever is there
+                if self.depth >= 2 && !self.typed_top {
+                    let op = *self.r.pick(BIN_OPS);
+                    self.raw(vec![op]);
+                    self.depth -= 1;
+                } else {
+                    self.push_word();
+                }
+            }
+            30..=35 => {
+                if self.depth == 0 || self.typed_top {
+                    self.push_word();
+                }
+                if self.r.chance(1, 3) {
+                    let c = self.word();
+                    let ul = self.uleb_any(c);
+                    self.op(|a| {
+                        a.u8(0x23).bytes(&ul);
+                    });
+                } else {
+                    let op = *self.r.pick(UN_OPS);
+                    self.raw(vec![op]);
+                }
+            }
+            36..=43 => {
+                // stack manipulation
+                match self.r.below(7) {
+                    0 if self.depth >= 1 => {
+                        self.raw(vec![0x12]);
+                        self.depth += 1;
+                    }
+                    1 if self.depth >= 1 => {
+                        self.raw(vec![0x13]);
+                        self.depth -= 1;
+                        self.typed_top = false;
+                    }
+                    2 if self.depth >= 2 => {
+                        self.raw(vec![0x14]);
+                        self.depth += 1;
+                        self.typed_top = false;
+                    }
+                    3 if self.depth >= 1 => {
+                        let n = if self.r.chance(1, 10) { self.depth as u8 } else { self.r.below(self.depth as u64) as u8 };
+                        self.raw(vec![0x15, n]);
+                        self.depth += 1;
+                        self.typed_top = false;
+                    }
+                    4 if self.depth >= 2 => {
+                        self.raw(vec![0x16]);
+                        self.typed_top = false;
+                    }
+                    5 if self.depth >= 3 => {
+                        self.raw(vec![0x17]);
+                        self.typed_top = false;
+                    }
+                    _ => {
+                        // three distinguishable values then rot / swap / pick
+                        for v in [1u64, 2, 3] {
+                            self.push_const(v);
+                        }
+                        let o = *self.r.pick(&[0x17u8, 0x16, 0x14, 0x12]);
+                        self.raw(vec![o]);
+                        if o == 0x14 || o == 0x12 {
+                            self.depth += 1;
+                        }
+                    }
+                }
+            }
+            44..=55 => {
+                // typed binary operation
+                let t = self.a_type();
+                let t2 = if self.r.chance(1, 10) { self.a_type() } else { t };
+                self.push_typed(t);
+                self.push_typed(t2);
+                let op = *self.r.pick(BIN_OPS);
+                self.raw(vec![op]);
+                self.depth -= 1;
+                let cmp = (0x29..=0x2e).contains(&op);
+                self.typed_top = !cmp;
+                if !cmp && self.r.chance(2, 3) {
+                    let to = if self.r.chance(2, 3) { Ty::Generic } else { *self.r.pick(&ALL_TYPES) };
+                    self.convert_to(to);
+                }
+            }
+            56..=59 => {
+                // typed unary
+                let t = self.a_type();
+                self.push_typed(t);
+                if self.r.chance(1, 3) {
+                    let c = self.r.boundary();
+                    self.op(|a| {
+                        a.u8(0x23).uleb(c);
+                    });
+                } else {
+                    let op = *self.r.pick(UN_OPS);
+                    self.raw(vec![op]);
+                }
+                if self.r.chance(1, 2) {
+                    self.convert_to(Ty::Generic);
+                }
+            }
+            60..=64 => {
+                // typed shift with a generic or typed count
+                let t = self.a_type();
+                self.push_typed(t);
+                let w = t.bits(self.enc.addr) as u64;
+                if self.r.chance(2, 3) {
+                    let c = match self.r.below(5) {
+                        0 => w,
+                        1 => w - 1,
+                        2 => self.r.boundary(),
+                        _ => self.r.below(w + 2),
+                    };
+                    self.push_const(c);
+                } else {
+                    let t2 = self.a_type();
+                    self.push_typed(t2);
+                }
+                let op = *self.r.pick(&[0x24u8, 0x25, 0x26]);
+                self.raw(vec![op]);
+                self.depth -= 1;
+                self.typed_top = true;
+                if self.r.chance(1, 2) {
+                    self.convert_to(Ty::Generic);
+                }
+            }
+            65..=69 => {
+                // conversion chains
+                if self.r.bool() {
+                    let t = self.a_type();
+                    self.push_typed(t);
+                } else {
+                    self.push_word();
+                }
+                for _ in 0..1 + self.r.below(3) {
+                    let t = *self.r.pick(&ALL_TYPES);
+                    if self.r.chance(1, 4) {
+                        self.reinterpret_to(t);
+                    } else {
+                        self.convert_to(t);
+                    }
+                }
+                if self.r.chance(1, 2) {
+                    self.convert_to(Ty::Generic);
+                }
+            }
+            70..=72 => {
+                // reinterpret between types of the same size
+                let pairs: &[(Ty, Ty)] = &[(Ty::I8, Ty::U8), (Ty::U16, Ty::I16), (Ty::I32, Ty::F32), (Ty::F32, Ty::U32), (Ty::U64, Ty::F64), (Ty::F64, Ty::I64), (Ty::I32, Ty::U32)];
+                let (x, y) = *self.r.pick(pairs);
+                self.push_typed(x);
+                self.reinterpret_to(y);
+                if self.r.chance(1, 2) {
+                    self.reinterpret_to(Ty::Generic);
+                }
+            }
+            73..=84 => self.request_snippet(),
+            85..=88 => {
+                // countdown loop: k, L: body, lit1, minus, dup, bra L ; leaves 0 on the stack
+                let n = 1 + self.r.below(6);
+                self.push_const(n);
+                let label = self.items.len();
+                match self.r.below(4) {
+                    0 => self.raw(vec![0x96]),
+                    1 => {
+                        self.raw(vec![0x12]);
+                        self.raw(vec![0x13]);
+                    }
+                    2 => {
+                        self.raw(vec![0x31]);
+                        self.raw(vec![0x22]);
+                        self.raw(vec![0x31]);
+                        self.raw(vec![0x1c]);
+                    }
+                    _ => {}
+                }
+                self.raw(vec![0x31]);
+                self.raw(vec![0x1c]);
+                self.raw(vec![0x12]);
+                self.branch_item(true, Target::Item(label));
+            }
+            89..=91 => {
+                // forward skip over junk that must never be decoded
+                let at = self.items.len();
+                self.branch_item(false, Target::Item(at + 2));
+                let junk = match self.r.below(4) {
+                    0 => vec![0x00],
+                    1 => vec![0xff, 0xff],
+                    2 => vec![0x10, 0x80, 0x80],
+                    _ => vec![0x13],
+                };
+                self.raw(junk);
+            }
+            92..=94 => {
+                // conditional forward branch
+                let c = if self.r.bool() { self.r.below(2) } else { self.word() };
+                self.push_const(c);
+                self.depth -= 1;
+                let at = self.items.len();
+                let over = 1 + self.r.usize(2);
+                self.branch_item(true, Target::Item(at + 1 + over));
+                for _ in 0..over {
+                    self.raw(vec![0x96]);
+                }
+            }
+            95..=97 => {
+                // a branch with an arbitrary target kind
+                let cond = self.r.bool();
+                if cond {
+                    let c = if self.r.chance(3, 4) { 1 } else { 0 };
+                    self.push_const(c);
+                    self.depth -= 1;
+                }
+                let n = self.items.len();
+                let t = match self.r.below(8) {
+                    0 => Target::End,
+                    1 => Target::PastEnd(1 + self.r.below(3) as u16),
+                    2 => Target::Mid(self.r.usize(n + 1)),
+                    3 => Target::Negative,
+                    4 => Target::Raw(self.r.next() as i16),
+                    5 => Target::Item(self.r.usize(n + 1)),
+                    _ => Target::Item(n + 1 + self.r.usize(3)),
+                };
+                self.branch_item(cond, t);
+            }
+            _ => {
+                // rarely: an arbitrary opcode with arbitrary operand bytes
+                let o = self.r.next() as u8;
+                let n = self.r.usize(4);
+                let mut b = vec![o];
+                b.extend(self.r.bytes(n));
+                self.raw(b);
+            }
+        }
+    }
+
+    /// A location description: pieces with every termination order.
+    pub fn location_tail(&mut self) {
+        let n = match self.r.below(6) {
+            0 => 0,
+            1 | 2 => 1,
+            _ => 2 + self.r.usize(3),
+        };
+        let single_unterminated = self.r.chance(1, 3);
+        for i in 0..n.max(1) {
+            // the location
+            match self.r.below(9) {
+                0 | 1 => {
+                    let reg = self.r.below(32) as u8;
+                    self.raw(vec![0x50 + reg]);
+                }
+                2 => {
+                    let reg = self.reg_num();
+                    self.op(|a| {
+                        a.u8(0x90).uleb(reg);
+                    });
+                }
+                3 => {
+                    let len = self.r.usize(9);
+                    let data = self.r.bytes(len);
+                    self.op(|a| {
+                        a.u8(0x9e).uleb(len as u64).bytes(&data);
+                    });
+                }
+                4 => {
+                    if self.r.bool() {
+                        self.push_word();
+                    } else {
+                        let t = self.a_type();
+                        self.push_typed(t);
+                    }
+                    self.raw(vec![0x9f]);
+                }
+                5 => {
+                    let v = self.r.boundary();
+                    let off = self.r.boundary() as i64;
+                    let enc = self.enc;
+                    let gnu = self.r.chance(1, 3);
+                    self.op(|a| {
+                        a.u8(if gnu { 0xf2 } else { 0xa0 });
+                        if enc.version == 2 {
+                            a.uint(enc.addr as usize, v);
+                        } else {
+                            a.word(enc.fmt64, v);
+                        }
+                        a.sleb(off);
+                    });
+                }
+                6 => {
+                    // memory location: an address on the stack
+                    self.push_word();
+                }
+                7 => {
+                    let off = self.r.irange(-64, 64);
+                    self.op(|a| {
+                        a.u8(0x91).sleb(off);
+                    });
+                }
+                _ => {
+                    // empty piece (if the stack is empty)
+                }
+            }
+            if n == 0 || (n == 1 && single_unterminated) {
+                break;
+            }
+            // the piece
+            let size = self.r.boundary() >> self.r.below(60);
+            if self.r.chance(1, 4) {
+                let off = self.r.boundary();
+                self.op(|a| {
+                    a.u8(0x9d).uleb(size).uleb(off);
+                });
+            } else {
+                self.op(|a| {
+                    a.u8(0x93).uleb(size >> 3);
+                });
+            }
+            // termination disorders
+            if i + 1 == n {
+                match self.r.below(12) {
+                    0 => self.raw(vec![0x96]),
+                    1 => self.raw(vec![0x31]),
+                    2 => self.op(|a| {
+                        a.u8(0x91).sleb(8);
+                    }),
+                    3 => self.raw(vec![0x50]),
+                    4 => self.raw(vec![0x9f]),
+                    _ => {}
+                }
+            } else if self.r.chance(1, 12) {
+                self.raw(vec![0x96]);
+            }
+        }
+    }
+
+    /// Lay the items out, resolve branch displacements, return the bytes and the offsets
+    /// of the items.
+    pub fn finish(self) -> (Vec<u8>, Vec<usize>) {
+        let le = self.enc.le;
+        let mut offs = vec![];
+        let mut o = 0usize;
+        for it in &self.items {
+            offs.push(o);
+            o += it.bytes.len();
+        }
+        let total = o;
+        let mut out = vec![];
+        for (i, it) in self.items.iter().enumerate() {
+            let mut b = it.bytes.clone();
+            if let Some(t) = &it.target {
+                let after = (offs[i] + 3) as i64;
+                let dest: i64 = match t {
+                    Target::Item(j) => {
+                        if *j >= offs.len() {
+                            total as i64
+                        } else {
+                            offs[*j] as i64
+                        }
+                    }
+                    Target::End => total as i64,
+                    Target::PastEnd(k) => total as i64 + *k as i64,
+                    Target::Mid(j) => {
+                        if *j >= offs.len() {
+                            total as i64
+                        } else if self.items[*j].bytes.len() > 1 {
+                            offs[*j] as i64 + 1
+                        } else {
+                            offs[*j] as i64
+                        }
+                    }
+                    Target::Negative => -1,
+                    Target::Raw(d) => after + *d as i64,
+                };
+                let d = (dest - after) as i16 as u16;
+                if le {
+                    b[1] = d as u8;
+                    b[2] = (d >> 8) as u8;
+                } else {
+                    b[1] = (d >> 8) as u8;
+                    b[2] = d as u8;
+                }
+            }
+            out.extend_from_slice(&b);
+        }
+        (out, offs)
+    }
+}
+
+/// A random program of roughly `n` snippets, optionally ending in a location description.
+pub fn random_program(enc: Enc, r: &mut Rng, n: usize, level: u32) -> Vec<u8> {
+    let with_loc = r.chance(2, 5);
+    let mut b = Builder::new(enc, r, level);
+    for _ in 0..n {
+        b.snippet();
+    }
+    if with_loc {
+        b.location_tail();
+    } else if b.r.chance(1, 6) {
+        b.raw(vec![0x9f]);
+    }
+    b.finish().0
+}
+
+// ------------------------------------------------------------------ decode catalogue
+
+/// Operand tails for the decode catalogue: byte strings to put after an opcode byte.
+/// Independent of the opcode, so that the decoder model alone decides what they mean.
+pub fn decode_tails(enc: Enc, r: &mut Rng) -> Vec<Vec<u8>> {
+    let mut v: Vec<Vec<u8>> = vec![];
+    v.push(vec![]);
+    v.push(vec![0x00; 12]);
+    v.push(vec![0xff; 12]);
+    v.push(vec![0x7f; 12]);
+    v.push(vec![0x80; 12]);
+    // 0x80 x k then a terminator: LEB128 boundaries at 9 / 10 bytes
+    for (k, t) in [(8usize, 0x7fu8), (9, 0x01), (9, 0x02), (9, 0x00), (9, 0x7f), (9, 0x40), (9, 0x7e)] {
+        let mut b = vec![0x80u8; k];
+        b.push(t);
+        b.extend_from_slice(&[0x05, 0x83, 0x01, 0x00]);
+        v.push(b.clone());
+        let mut c = vec![0xffu8; k];
+        c.push(t);
+        c.extend_from_slice(&[0x05, 0x83, 0x01, 0x00]);
+        v.push(c);
+    }
+    // small count / length / kind byte followed by data: blocks, wasm kinds, typed consts
+    for first in [0u8, 1, 2, 3, 4, 5, 8, 9, 0x10, 0x7f, 0x80, 0xfe] {
+        let mut b = vec![first];
+        b.extend(r.bytes(11));
+        v.push(b);
+        // first, then a LEB length that exactly covers / exceeds the rest
+        let mut c = vec![first, 4, 0xde, 0xad, 0xbe, 0xef];
+        v.push(c.clone());
+        c[1] = 5;
+        v.push(c);
+    }
+    // two LEB128 boundary values back to back (register + offset, size + offset ...)
+    for _ in 0..10 {
+        let mut b = uleb_bytes(match r.below(4) {
+            0 => 65535,
+            1 => 65536,
+            2 => r.below(70000),
+            _ => r.boundary(),
+        });
+        if r.bool() {
+            b.extend(sleb_bytes(r.boundary() as i64));
+        } else {
+            b.extend(uleb_bytes(*r.pick(EXTREMES)));
+        }
+        b.extend(r.bytes(2));
+        v.push(b);
+    }
+    // piece sizes around 2^61 and u32 boundaries for WASM indices (after a kind byte)
+    for x in [(1u64 << 61) - 1, 1 << 61, (1 << 61) + 1, u64::MAX, 0xffff_ffff, 0x1_0000_0000] {
+        v.push(uleb_bytes(x));
+        for kind in 0..4u8 {
+            let mut b = vec![kind];
+            b.extend(uleb_bytes(x));
+            v.push(b);
+        }
+    }
+    // fixed-width boundary words in the expression's byte order
+    for _ in 0..6 {
+        let mut a = Asm::new(enc.le);
+        a.u64(r.boundary()).u32(r.boundary() as u32);
+        v.push(a.buf);
+    }
+    for _ in 0..6 {
+        let n = r.usize(14);
+        v.push(r.bytes(n));
+    }
+    v
+}
